@@ -349,12 +349,111 @@ def linecol_rules(fns, what, bad):
     """C09 b: the per-index tables: from (1, 0); a line break stores (line+1, 0), any other character
     stores (line, col+1); one entry per character in each table; the line table is returned first."""
     nv = linebreak_vocabulary(fns, what, bad)
-    try:
-        return _linecol_shape_rules(fns, what, bad)
-    except AnalysisError:
-        if nv:
-            return nv           # the vocabulary rule already decided; the unknown shape is its consequence
-        raise
+    # each recognised way of writing the map is tried with a finding list of its own: findings count
+    # only for the shape that was actually recognised
+    first = None
+    for shape in (_linecol_shape_rules, _linecol_shape_rules_last_newline):
+        mine = []
+        try:
+            n = shape(fns, what, lambda r, m: mine.append((r, m)))
+        except AnalysisError as e:
+            first = first or e
+            continue
+        for r, m in mine:
+            bad(r, m)
+        return n
+    if nv:
+        return nv               # the vocabulary rule already decided; the unknown shape is its consequence
+    raise first
+
+
+def _linecol_shape_rules_last_newline(fns, what, bad):
+    """The same map written with the index of the most recent line feed instead of a column counter:
+        L = 1; N = -1
+        for i, c in enumerate(text):  if c == '\\n': L = L + 1; N = i
+                                      lines.append(L); columns.append(i - N)
+    Equivalent to the counter form by the invariant column = i - N (N = -1 before the first line
+    feed gives 1 + offset; at a line feed N = i gives 0)."""
+    fn = fns['_map_index_to_line_and_column']
+    T = ('PARAM', fn.args.args[0].arg)
+    paths = P.Enumerator().function(fn)
+    if len(paths) != 1 or paths[0].end[0] != 'return':
+        raise AnalysisError(f'{what}: _map_index_to_line_and_column: unexpected shape')
+    p = paths[0]
+    loops = [s for s in p.steps if s[0] == 'LOOP']
+    if len(loops) != 1 or not isinstance(loops[0][1], ast.For):
+        raise AnalysisError(f'{what}: _map_index_to_line_and_column: expected one for loop')
+    lp = loops[0]
+    lid = lp[3]
+    it = P.Enumerator().val(lp[1].iter, {fn.args.args[0].arg: T})
+    if it != ('CALL', ('VAR', 'enumerate'), T):
+        raise AnalysisError(f'{what}: _map_index_to_line_and_column: not a loop over enumerate(text)')
+    IDX, C = ('UNPACK', ('ITEM', it), 0), ('UNPACK', ('ITEM', it), 1)
+    ret = p.end[1]
+    if not (isinstance(ret, tuple) and ret[0] == 'TUPLE' and len(ret) == 3):
+        raise AnalysisError(f'{what}: _map_index_to_line_and_column does not return two tables')
+    LT, CT = ret[1], ret[2]
+    NL = ('CONST', "'\\n'")
+    EQ = (('CMP', ('Eq',), C, NL), ('CMP', ('Eq',), NL, C))
+    NE = (('CMP', ('NotEq',), C, NL), ('CMP', ('NotEq',), NL, C))
+    inits = {e[2]: e[3] for e in p.events('assign')}
+    nob = 0
+    seen = set()
+    lname = nname = None
+    for bp in lp[2]:
+        nl = [t[2] if t[1] in EQ else (not t[2]) for t in bp.tests() if t[1] in EQ + NE]
+        if len(nl) != 1:
+            raise AnalysisError(f'{what}: _map_index_to_line_and_column: loop path without the line-break test')
+        apps = {}
+        for e in bp.events():
+            if e[1] == 'call:append':
+                apps.setdefault(e[2], []).append(e[3][0])
+        for tbl in (LT, CT):
+            nob += 1
+            if len(apps.get(tbl, [])) != 1:
+                bad('LINECOL-map', f'{what}: a character appends {len(apps.get(tbl, []))} entries to '
+                                   f'{P.tfmt(tbl)} (tables must have exactly one entry per character)')
+                return nob
+        line_t, col_t = apps[LT][0], apps[CT][0]
+        seen.add(nl[0])
+        if nl[0]:
+            # line + 1, column 0 (written i - i)
+            ok = isinstance(line_t, tuple) and line_t[:2] == ('OP', 'Add') and line_t[3] == ('CONST', '1') \
+                and isinstance(line_t[2], tuple) and line_t[2][0] == 'PHI' \
+                and col_t in (('CONST', '0'), ('OP', 'Sub', IDX, IDX))
+            if ok:
+                lname = line_t[2][1]
+                nname = next((k for k, v in bp.env.items() if v == IDX and k not in (
+                    lp[1].target.elts[0].id if isinstance(lp[1].target, ast.Tuple) else None,)), None)
+        else:
+            ok = isinstance(line_t, tuple) and line_t[0] == 'PHI' and isinstance(col_t, tuple) \
+                and col_t[:3] == ('OP', 'Sub', IDX) and isinstance(col_t[3], tuple) and col_t[3][0] == 'PHI'
+            if ok:
+                lname = lname or line_t[1]
+                if nname and col_t[3][1] != nname:
+                    ok = False
+                nname = nname or col_t[3][1]
+                if bp.env.get(lname) != ('PHI', lname, lid) or bp.env.get(nname) != ('PHI', nname, lid):
+                    ok = False
+        nob += 2
+        if not ok:
+            bad('LINECOL-map', f'{what}: after a {"line break" if nl[0] else "character"} the map stores '
+                               f'({P.tfmt(line_t)}, {P.tfmt(col_t)})')
+            return nob
+    if seen != {True, False}:
+        raise AnalysisError(f'{what}: cannot find both cases (line break / other character)')
+    nob += 2
+    if inits.get(lname) != ('CONST', '1') or inits.get(nname) not in (('UOP', 'USub', ('CONST', '1')), ('CONST', '-1')):
+        bad('LINECOL-map', f'{what}: the map starts from line={P.tfmt(inits.get(lname))}, last line feed at '
+                           f'{P.tfmt(inits.get(nname))}; expected (1, -1)')
+    for bp in lp[2]:
+        nl = [t[2] if t[1] in EQ else (not t[2]) for t in bp.tests() if t[1] in EQ + NE][0]
+        if nl and (bp.env.get(nname) != IDX or bp.env.get(lname) != ('OP', 'Add', ('PHI', lname, lid), ('CONST', '1'))):
+            bad('LINECOL-map', f'{what}: after a line break the carried state is ({P.tfmt(bp.env.get(lname))}, '
+                               f'{P.tfmt(bp.env.get(nname))})')
+    if P.Enumerator().val(lp[1].iter, {fn.args.args[0].arg: T}) != ('CALL', ('VAR', 'enumerate'), T):
+        bad('LINECOL-map', f'{what}: the position tables are not built from every character of the text')
+    return nob
 
 
 def _linecol_shape_rules(fns, what, bad):
@@ -699,10 +798,19 @@ def finalize_rules(fns, what, bad):
     if gparams != ['text', 'pos']:
         raise AnalysisError(f'{what}: _get_line_and_column signature changed to {gparams}')
     want = ('TUPLE', ('SUB', ('UNPACK', MAPCALL, 0), POS), ('SUB', ('UNPACK', MAPCALL, 1), POS))
+
+    def spread(t):
+        # tuple(f(x) for x in <the two tables>)  is  (f(lines), f(columns))
+        if isinstance(t, tuple) and t[:2] == ('CALL', ('VAR', 'tuple')) and len(t) == 3 and isinstance(t[2], tuple) \
+                and t[2][:1] == ('COMP',) and len(t[2]) == 4 and len(t[2][3]) == 3 and t[2][3][2] == MAPCALL:
+            name = t[2][3][1].strip()
+            from .walkers import substitute
+            return ('TUPLE',) + tuple(substitute(t[2][2], {('ITEM', name): ('UNPACK', MAPCALL, j)}) for j in (0, 1))
+        return t
     for p in gp:
         if p.end[0] != 'return':
             continue
-        if p.end[1] != want:
+        if spread(p.end[1]) != want:
             uses_map = any(x == MAPCALL for s in p.steps for t in ([s[3]] if s[0] == 'E' else [])
                            if t is not None for x in P.subterms(t)) or any(x == MAPCALL for x in P.subterms(p.end[1]))
             bad('LINECOL-map', f'{what}: _get_line_and_column returns {P.tfmt(p.end[1])[:120]}'
